@@ -164,6 +164,13 @@ def parentOf : Layer → Parent
   | .ip6 _ _ _ _ src dst _ => .ip6 src dst
   | _ => .other
 
+/-- what the `tins_cast<const IP*>(parent_pdu())` / `tins_cast<const IPv6*>(parent_pdu())` of the checksum tails see for the
+    enclosing layer `p` (it is also the parent the RFC dissector hands to the first layer of the carried stack) -/
+def walkPar (p : Option Layer) : Parent :=
+  match p with
+  | some q => parentOf q
+  | none => .other
+
 /-- the next-header values written into the IPv6 extension chain: header X carries the type of header X+1 and the
     last one the tag of the inner PDU (`set_last_next_header`) -/
 def ip6Chain (exts : List (Nat × Bytes)) (last : Nat) : List (Nat × Bytes) :=
@@ -178,6 +185,18 @@ def writeIp6Ext (nextAndData : Nat × Bytes) : Bytes :=     -- IPv6::write_heade
   b8 nxt :: b8 len :: (d ++ zeros (ip6ExtPad d))
 
 /-! ### `write_serialization` -/
+
+/-- the protocol octet `IP::write_serialization` stores: the number of the inner PDU's class when it has one -/
+def ipProtoField (proto : Nat) (rest : List Layer) : Nat :=
+  match rest.head? with
+  | none => 0
+  | some n => if flagToIp n ≠ 0xff then flagToIp n else proto
+
+/-- the next-header value of the last header of the IPv6 chain (`set_last_next_header`) -/
+def ip6LastNextHeader (nh : Nat) (rest : List Layer) : Nat :=
+  match rest.head? with
+  | none => 59                                                      -- NO_NEXT_HEADER: nothing follows
+  | some n => if flagToIp n ≠ 0xff then flagToIp n else nh
 
 /-- the `payload_type` `EthernetII::write_serialization` stores: PPPoE by its stage, two 802.1Q tags as 802.1ad, otherwise
     the table of `pdu_flag_to_ether_type`; the user's value when the class has no EtherType -/
@@ -210,18 +229,14 @@ def write (l : Layer) (rest : List Layer) (inner : Bytes) (parent : Option Layer
       | some n => if pduToEther n ≠ TagsC05.ethUNKNOWN then pduToEther n else type
     [b8 (prio % 8 * 32 + cfi % 2 * 16 + id % 4096 / 256), b8 (id % 256)] ++ w16 flag ++ inner ++ zeros trl
   | .ip tos id flags fragoff ttl proto src dst opts =>
-    let proto := match nxt with
-      | none => 0
-      | some n => if flagToIp n ≠ 0xff then flagToIp n else proto
+    let proto := ipProtoField proto rest
     let hs := headerSize l
     let hdr := [b8 (4 * 16 + hs / 4 % 16), b8 tos] ++ w16 totalSz ++ w16 id ++ w16 (flags % 8 * 8192 + fragoff % 8192)
       ++ [b8 ttl, b8 proto, 0, 0] ++ src ++ dst
     let o := writeTlvOpts opts
     ipTail (hdr ++ o ++ zeros (pad4 (ipOptSize opts) - ipOptSize opts) ++ inner) hs
   | .ip6 tc flow hop nh src dst exts =>
-    let lastNh := match nxt with
-      | none => 59                                                      -- NO_NEXT_HEADER: nothing follows
-      | some n => if flagToIp n ≠ 0xff then flagToIp n else nh
+    let lastNh := ip6LastNextHeader nh rest
     let first := match exts with
       | [] => lastNh
       | (t, _) :: _ => t
@@ -234,10 +249,10 @@ def write (l : Layer) (rest : List Layer) (inner : Bytes) (parent : Option Layer
     let hdr := w16 sp ++ w16 dp ++ w32 seq ++ w32 ack ++ [b8 (doff * 16 + flags / 256 % 16), b8 flags]
       ++ w16 win ++ [0, 0] ++ w16 urg
     let buf := hdr ++ writeTlvOpts opts ++ zeros (pad4 osz - osz) ++ inner
-    tcpTail (match parent with | some p => parentOf p | none => .other) buf totalSz
+    tcpTail (walkPar parent) buf totalSz
   | .udp sp dp =>
     let buf := w16 sp ++ w16 dp ++ w16 (8 + (innerSz.getD 0)) ++ [0, 0] ++ inner
-    udpTail (match parent with | some p => parentOf p | none => .other) buf totalSz
+    udpTail (walkPar parent) buf totalSz
   | .icmp type code id seq a b c lenflag exts =>
     let allowed := type = 3 ∨ type = 11 ∨ type = 12                   -- are_extensions_allowed()
     let b5 := if lenflag then 1 else id % 256                         -- use_length_field(true) stores 1 in the length octet
@@ -268,7 +283,7 @@ def write (l : Layer) (rest : List Layer) (inner : Bytes) (parent : Option Layer
         | none => []
         | some sz => zeros ((if paddedInner innerSz 8 > 128 then paddedInner innerSz 8 else 128) - sz))
       ++ writeExtStruct exts
-    icmp6Tail (match parent with | some p => parentOf p | none => .other) (hdr ++ inner ++ tail) totalSz
+    icmp6Tail (walkPar parent) (hdr ++ inner ++ tail) totalSz
   | .raw d => d ++ inner
   | .pppoe code sess _ tags =>
     let tagsSize := headerSize l - 6
